@@ -29,4 +29,22 @@ an address position (what seed C08-08 moved the withdrawal's redeemer into) keep
 example (c : Ctx) (h : c.lvl ≠ 0) : c.enterDatum.lvl ≠ 0 ∧ c.enterAddress.lvl ≠ 0 ∧ c.enterAsset.lvl ≠ 0 := by
   simp [Ctx.enterDatum, Ctx.enterAddress, Ctx.enterAsset, h]
 
+/-- **A policy name** written as a redeemer (or a datum field) is the policy's hash in every position but an address
+position - where it is the script address the compiler builds from it, which is what a withdrawal's redeemer became
+under seed C08-08. -/
+theorem C08_policy_name_as_data (s : Scope) (n : Nat) (ctx : Ctx) (x h : String) (hb : Bytes)
+    (hl : ctx.lvl ≠ 0) (hr : resolve s x = some (.policy x h)) (hh : hexDecode h = some hb) :
+    (ctx.address = false →
+      lowerE s (n + 1) ctx (.leaf (.id x)) = .ok (.leaf (.hash hb)) ∧ tryAsData (.leaf (.hash hb)) = .ok (.bytes hb)) ∧
+    (ctx.address = true →
+      lowerE s (n + 1) ctx (.leaf (.id x)) = .ok (.node (.compiler .buildScriptAddress) [.leaf (.hash hb)])) := by
+  constructor
+  · intro ha
+    refine ⟨?_, by simp [tryAsData]⟩
+    rw [lowerE]
+    simp only [hl, if_false, hr, hh, ha, Bool.false_eq_true]
+  · intro ha
+    rw [lowerE]
+    simp only [hl, if_false, hr, hh, ha, if_true]
+
 end Tx3.Lang
